@@ -61,7 +61,11 @@ class Check:
         """Build the closure of Props/<cid>.v, check the grep gate and parse
         Print Assumptions.  Returns True when every obligation is discharged."""
         self.regenerate()
-        hits = coqio.grep_gate()
+        import glob as _glob
+        roots = ['Props/%s.v' % self.cid] + list(targets or []) + \
+            [os.path.relpath(f, common.COQ) for f in _glob.glob(os.path.join(common.COQ, 'Check', self.cid + '*.v'))]
+        hits = coqio.grep_gate(roots)
+        self.extra['gate_files'] = len(coqio.require_closure(roots))
         if hits:
             self.broken.append('forbidden vernacular: ' + '; '.join(hits[:5]))
         tg = ['Props/%s.v' % self.cid] + list(targets or [])
